@@ -58,8 +58,8 @@ ASSUMPTIONS = [
 ]
 QUICK = dict(cases=900, workers=2, timecap=45)
 THOROUGH = dict(cases=60000, workers=16, timecap=600)
-REQUIRED = {"diff_final": 1500, "diff_shadow": 5000, "diff_read": 300, "inv_range": 2000, "inv_binwidth": 2000,
-            "calib": 2000, "set_accepted": 1000, "set_rejected": 50}
+REQUIRED = {"diff_final": 2500, "diff_shadow": 10000, "diff_read": 2500, "inv_range": 40000, "inv_binwidth": 40000,
+            "calib": 80000, "set_accepted": 1200, "set_rejected": 120}
 
 _S = {"in_monitor": False, "memo": None}
 
@@ -76,6 +76,7 @@ class InvariantBroken(Exception):
         super().__init__(clause)
         self.clause = clause
         self.cls_name = type(inst).__name__
+        self.where = _S.get("where") or "construction"
         self.detail = dict(_S.get("last_view_detail") or {})
 
 
@@ -311,6 +312,15 @@ def _filters_value(idx, pool, as_tuple=False):
 
 def build(kind, P, pool):
     """Instrument constructed directly from the (modelled) parameters, positional order as documented."""
+    prev = _S.get("where")
+    _S["where"] = "construction"
+    try:
+        return _build(kind, P, pool)
+    finally:
+        _S["where"] = prev
+
+
+def _build(kind, P, pool):
     if kind in ("spectrometer", "survey"):
         return _S["Spectrometer"]([expand_layout(l) for l in P["wavelength_to_pixel"]], P["min_bins_per_pixel"], P["name"])
     if kind == "czerny":
@@ -512,6 +522,8 @@ def check_calibration(ctx, inst, cname, spec, pool, tag):
     smin, smax, bins = resolve_spectrum(spec, lo, hi, float(arrays[0][1] - arrays[0][0]))
     if bins > 20000:
         bins = 20000
+    ctx.cls("calib-range:" + spec["range"]["mode"])
+    ctx.cls("calib-samples:" + spec["samples"]["kind"])
     sp = Spectrum(smin, smax, bins)
     centres = np.array(sp.wavelengths, dtype=float)
     samples = expand_samples(spec["samples"], centres)
@@ -588,9 +600,10 @@ def run_case(case, ctx):
             what = {"range-covers": "the reported spectral range does not cover every pixel / filter",
                     "bin-width": "bin width (max-min)/spectral_bins exceeds narrowest pixel (window) / min_bins_per_pixel "
                                  "(min_bins_per_window), or spectral_bins is not a number >= 1"}[e.clause]
-            ctx.viol("invariant:%s:%s" % (e.clause, e.cls_name), what, **e.detail)
+            ctx.viol("invariant:%s:%s:after-%s" % (e.clause, e.cls_name, e.where), what, violated_after=e.where, **e.detail)
         finally:
             _S["memo"] = None
+            _S["where"] = None
             _flush_counts(ctx)
 
 
@@ -623,6 +636,7 @@ def _run(case, ctx):
             ctx.cls("set-on-%s-cache" % ("warm" if reads_since_set else "cold"))
             reads_since_set = 0
             value = setter_value(kind, attr, op["value"], pool, op)
+            _S["where"] = ("rejected-set-" if op.get("invalid") else "set-") + attr
             if op.get("invalid"):
                 before = _param_snapshot(inst, kind)
                 try:
@@ -636,6 +650,7 @@ def _run(case, ctx):
                     ctx.skip("rejected-setter-changed-parameter:%s.%s" % (cname, attr))
                     return
                 last_set = "rejected-set-" + attr
+                _S["where"] = last_set
             else:
                 setattr(inst, attr, value)
                 P[attr] = op["value"]
